@@ -434,6 +434,147 @@ theorem splitPositions_eq (chunks ws perm mods : List Nat) (den : Nat)
     simp only [Bool.false_eq_true, if_false, he]
     exact refineAll_spec _ _ _ _ _ hg
 
+/-! ### The code before the K4 fix (`guarded := false`) -/
+
+/-- Sum of the block sums. -/
+def blockSum (bs : List (Nat × Nat)) : Nat := (bs.map (·.2)).sum
+
+theorem blockSum_mkBlocks : ∀ (chunks sw : List Nat) (start : Nat), chunks.sum = sw.length →
+    blockSum (mkBlocks chunks sw start) = sw.sum := by
+  intro chunks
+  induction chunks with
+  | nil =>
+    intro sw start h
+    have : sw = [] := List.eq_nil_of_length_eq_zero (by simpa using h.symm)
+    subst this
+    simp [mkBlocks, blockSum]
+  | cons c cs ih =>
+    intro sw start h
+    simp only [List.sum_cons] at h
+    have := ih (sw.drop c) (start + c) (by simp only [List.length_drop]; omega)
+    simp only [blockSum] at this
+    simp only [mkBlocks, blockSum, List.map_cons, List.sum_cons, this]
+    rw [← List.sum_append, List.take_append_drop]
+
+theorem refine_unguarded_eq (total den A : Nat) : ∀ (rest : List Nat) (i s : Nat),
+    s * den ≤ total * A → total * A < (s + rest.sum) * den →
+    refine { guarded := false } total den A rest i s = refine {} total den A rest i s := by
+  intro rest
+  induction rest with
+  | nil => intro i s h1 h2; simp at h2; omega
+  | cons w rest ih =>
+    intro i s h1 h2
+    simp only [refine]
+    split
+    · next hle => exact ih _ _ hle (by simpa [List.sum_cons, Nat.add_assoc] using h2)
+    · rfl
+
+theorem scanInner_unguarded_eq (len total den A : Nat) : ∀ (bs : List (Nat × Nat)) (cur : Nat),
+    cur * den ≤ total * A → total * A < (cur + blockSum bs) * den →
+    scanInner { guarded := false } len total den A bs cur = scanInner {} len total den A bs cur := by
+  intro bs
+  induction bs with
+  | nil => intro cur h1 h2; simp [blockSum] at h2; omega
+  | cons b bs ih =>
+    intro cur h1 h2
+    obtain ⟨low, s⟩ := b
+    simp only [scanInner]
+    split
+    · rfl
+    · next hno =>
+      exact ih _ (by omega) (by simpa [blockSum, Nat.add_assoc] using h2)
+
+theorem scanInner_conserves (len total den A : Nat) : ∀ (bs : List (Nat × Nat)) (cur : Nat) e bs' cur',
+    scanInner {} len total den A bs cur = some (e, bs', cur') → cur' + blockSum bs' = cur + blockSum bs := by
+  intro bs
+  induction bs with
+  | nil =>
+    intro cur e bs' cur' h
+    simp only [scanInner] at h
+    simp only [if_true, Option.some.injEq, Prod.mk.injEq] at h
+    obtain ⟨_, rfl, rfl⟩ := h
+    rfl
+  | cons b bs ih =>
+    intro cur e bs' cur' h
+    obtain ⟨low, s⟩ := b
+    simp only [scanInner] at h
+    split at h
+    · simp only [Option.some.injEq, Prod.mk.injEq] at h
+      obtain ⟨_, rfl, rfl⟩ := h
+      simp [blockSum, Nat.add_assoc]
+    · have := ih _ _ _ _ h
+      simp only [blockSum, List.map_cons, List.sum_cons] at this ⊢
+      omega
+
+theorem scanOuter_unguarded_eq (len total den : Nat) : ∀ (As : List Nat) (bs : List (Nat × Nat))
+    (cur : Nat) (acc : List (Nat × Nat)),
+    (∀ A ∈ As, total * A < (cur + blockSum bs) * den) →
+    scanOuter { guarded := false } len total den As bs cur acc = scanOuter {} len total den As bs cur acc := by
+  intro As
+  induction As with
+  | nil => intro bs cur acc _; simp [scanOuter]
+  | cons A As ih =>
+    intro bs cur acc h
+    simp only [scanOuter]
+    split
+    · cases acc with
+      | nil => rfl
+      | cons last acc' => exact ih _ _ _ (fun A' hA' => h A' (by simp [hA']))
+    · next hno =>
+      rw [scanInner_unguarded_eq len total den A bs cur (by omega) (h A (by simp))]
+      cases hsi : scanInner {} len total den A bs cur with
+      | none => rfl
+      | some r =>
+        obtain ⟨e, bs', cur'⟩ := r
+        have hc := scanInner_conserves len total den A bs cur e bs' cur' hsi
+        exact ih _ _ _ (fun A' hA' => by rw [hc]; exact h A' (by simp [hA']))
+
+theorem refineAll_unguarded_eq (sw : List Nat) (total den : Nat) :
+    ∀ es As, All₂ (fun e A => Good sw total den A e) es As → (∀ A ∈ As, total * A < sw.sum * den) →
+      refineAll { guarded := false } total den sw es As = refineAll {} total den sw es As := by
+  intro es As h
+  induction h with
+  | nil => intro _; simp [refineAll]
+  | @cons e A es As hg _ ih =>
+    intro hex
+    simp only [refineAll]
+    have h1 : e.2 + (sw.drop e.1).sum = sw.sum := by
+      rw [hg.2.1, pre, ← List.sum_append, List.take_append_drop]
+    rw [refine_unguarded_eq total den A _ _ _ hg.2.2 (by rw [h1]; exact hex A (by simp)),
+      ih (fun A' hA' => hex A' (by simp [hA']))]
+
+/-- Where every threshold is exceeded by the slab's total weight (in particular: the slab's
+weight is positive and the running sums of the modifiers stay below `den`), the code before
+the K4 fix computed the same positions; it aborted only on the other slabs. -/
+theorem splitPositions_unguarded_eq (chunks ws perm mods : List Nat) (den : Nat)
+    (hp : ∀ i ∈ perm, i < ws.length) (hc : chunks.sum = perm.length)
+    (hex : ∀ A ∈ cumul mods.dropLast 0, (slabW ws perm).sum * A < (slabW ws perm).sum * den) :
+    splitPositions { guarded := false } chunks ws perm mods den =
+      splitPositions {} chunks ws perm mods den := by
+  cases mods with
+  | nil => rfl
+  | cons m ms =>
+    have hany : perm.any (fun i => decide (ws.length ≤ i)) = false := by
+      rw [List.any_eq_false]
+      intro i hi
+      have := hp i hi
+      simp; omega
+    simp only [splitPositions, hany]
+    have hbs : blockSum (mkBlocks chunks (slabW ws perm) 0) = (slabW ws perm).sum :=
+      blockSum_mkBlocks _ _ _ (by simp [slabW, hc])
+    simp only [slabW] at hbs hex
+    rw [scanOuter_unguarded_eq _ _ _ _ _ _ _ (by
+      intro A hA
+      rw [Nat.zero_add, hbs]
+      exact hex A hA)]
+    have hb : BlocksAt (slabW ws perm) chunks 0 (mkBlocks chunks (slabW ws perm) 0) 0 :=
+      ⟨by simp [slabW, hc], by simp, by simp [pre]⟩
+    obtain ⟨es, he, hg⟩ := scanOuter_spec (slabW ws perm) (slabW ws perm).sum den
+      (cumul (m :: ms).dropLast 0) chunks 0 _ 0 [] hb (cumul_sorted _ _) (by simp) (by simp)
+    simp only [List.reverse_nil, List.nil_append, slabW] at he hg
+    simp only [Bool.false_eq_true, if_false, he]
+    exact refineAll_unguarded_eq _ _ _ _ _ hg hex
+
 /-- The positions are non-decreasing and at most the slab's length. -/
 theorem spec_positions_sorted (total den : Nat) (sw : List Nat) (l : List Nat) (a : Nat) :
     ((cumul l a).map (fun A => specIdx total den A sw)).Pairwise (· ≤ ·) ∧
